@@ -165,6 +165,20 @@ def build(app):
         write_some(app, m, 200)
         return data
 
+    @app.route('/busy/<m>')
+    def busy(m):
+        # a non-standard status code given in string form with a request-specific reason phrase
+        note('arg', m)
+        read_all(app, 'r1')
+        app.response.status = '529 Overloaded by ' + m
+        return 'busy-' + m
+
+    @app.route('/limit/<m>')
+    def limit(m):
+        # the same non-standard code used numerically
+        note('arg', m)
+        raise ombott.HTTPError(529, 'limit-' + m)
+
     @app.route('/json/<m>', method='POST')
     def json_in(m):
         note('arg', m)
